@@ -728,7 +728,10 @@ def run_c11(ctx, spec, out):
             elif r < 0.85:
                 # object count changes without restart: add a contact / remove a host group / add a timeperiod
                 # only tables that are refreshed as a whole (every full minute) notice a changed number of objects
-                c = rng.choice(["hostgroup", "timeperiod", "host", "service", "droplast"] if not replaced and (cfg.get("full_update_interval") or rng.random() < 0.3) else ["hostgroup", "timeperiod"])
+                # (not for Icinga 2 backends: their count check and re-synchronisation from inside the delta scan,
+                # reloadIfNumberOfObjectsChanged, is not part of the model)
+                grow_ok = not replaced and "Icinga2" not in flags and (cfg.get("full_update_interval") or rng.random() < 0.3)
+                c = rng.choice(["hostgroup", "timeperiod", "host", "service", "droplast"] if grow_ok else ["hostgroup", "timeperiod"])
                 hrows = wb["tables"]["hosts"]["rows"]
                 srows = wb["tables"]["services"]["rows"]
                 if c == "host" and hrows:
